@@ -130,7 +130,9 @@ where
 
     crossbeam_utils::thread::scope(|scope| {
         let handle = scope.spawn::<_, Result<(), Er>>(move |_| {
+            vsync!("R.init", false);
             let mut reader = reader_init()?;
+            vsync!("R.init", true);
 
             let mut pool = scoped_threadpool::Pool::new(n_threads);
 
@@ -139,10 +141,13 @@ where
 
                 loop {
                     // recycle an old DataSet sent back after use
+                    vsync!("R.recv", false);
                     let mut data = if let Ok(r) = empty_recv.recv() {
+                        vsync!("R.recv.got", true);
                         r
                     } else {
                         // ParallelRecordsets dropped -> stop
+                        vsync!("R.recv.closed", true);
                         return;
                     };
 
@@ -153,13 +158,20 @@ where
                             Ok(_) => {
                                 // expensive work carried out by func()
                                 pool_scope.execute(move || {
+                                    vsync!("W.work", false);
                                     let out = work(&mut data);
+                                    vsync!("W.work", true);
 
+                                    vsync!("W.send", false);
                                     done_send.send(Some(Ok((data, out)))).ok();
+                                    vsync!("W.send", true);
                                 });
+                                vsync!("R.exec", true);
                             }
                             Err(e) => {
+                                vsync!("R.senderr", false);
                                 done_send.send(Some(Err(e))).ok();
+                                vsync!("R.senderr", true);
                                 break;
                             }
                         }
@@ -168,9 +180,13 @@ where
                     }
                 }
 
+                vsync!("R.join", false);
                 pool_scope.join_all();
+                vsync!("R.join", true);
 
+                vsync!("R.sendend", false);
                 done_send.send(None).ok();
+                vsync!("R.sendend", true);
             });
             Ok(())
         });
@@ -188,9 +204,13 @@ where
         };
 
         let out = func(&mut rsets);
+        vsync!("C.drop", false);
         ::std::mem::drop(rsets);
+        vsync!("C.drop", true);
 
+        vsync!("C.join", false);
         handle.join().unwrap()?;
+        vsync!("C.join", true);
         Ok(out)
     })
     .unwrap()
@@ -216,11 +236,15 @@ where
     #[allow(clippy::should_implement_trait)]
     #[inline]
     pub fn next(&mut self) -> Option<Result<(&mut R, O), E>> {
+        vsync!("C.recv", false);
         self.done_recv.recv().unwrap().map(move |result| {
             match result {
                 Ok((r, o)) => {
+                    vsync!("C.recv.ok", true);
                     let prev_rset = ::std::mem::replace(&mut self.current_recordset, r);
+                    vsync!("C.recycle", false);
                     self.empty_send.send(prev_rset).ok(); // error: channel closed is not a problem, happens after calling stop()
+                    vsync!("C.recycle", true);
                     Ok((&mut self.current_recordset, o))
                 }
                 Err(e) => Err(e),
